@@ -638,8 +638,9 @@ Proof.
     simpl. destruct srcs; [destruct I|]. simpl. rewrite app_nil_r. exact I.
   - simpl in H. simpl. revert H. induction ch as [|c ch IHch]; intro H; [discriminate|].
     simpl in H. apply orb_prop in H. destruct H as [H|H].
-    + destruct (IH c H) as (s & I & O). exists s. split; [|exact O].
-      simpl. rewrite flat_map_app. apply in_or_app. left. exact I.
+    + apply andb_prop in H. destruct H as [R H].
+      destruct (IH c H) as (s & I & O). exists s. split; [|exact O].
+      simpl. rewrite R. rewrite flat_map_app. apply in_or_app. left. exact I.
     + destruct (IHch H) as (s & I & O). exists s. split; [|exact O].
       simpl. rewrite flat_map_app. apply in_or_app. right. exact I.
 Qed.
@@ -732,3 +733,77 @@ Example layer_res_ok_examples :
   layer_res_ok (Some false) [(false, true)] true = false.
 Proof. vm_compute. auto. Qed.
 
+
+(* ------------------------------------------------------------------ selection with authorisation (two passes) *)
+
+Lemma od_get_in : forall d k v, NoDup (map fst d) -> In (k, v) d -> od_get d k = Some v.
+Proof.
+  induction d as [|[k' v'] d IH]; intros k v ND I; [destruct I|].
+  simpl in *. inversion ND; subst. destruct I as [E|I].
+  - inversion E; subst. rewrite Z.eqb_refl. reflexivity.
+  - destruct (k' =? k) eqn:Q.
+    + apply Z.eqb_eq in Q. subst k'. exfalso. apply H1. apply in_map_iff. exists (k, v). split; [reflexivity|exact I].
+    + apply IH; assumption.
+Qed.
+
+Lemma filter_auth_none : forall d, filter_auth (fun _ => 0) d = d.
+Proof. induction d as [|kv d IH]; simpl; [reflexivity|]. rewrite IH. reflexivity. Qed.
+
+Lemma filter_all_true : forall {A} (f : A -> bool) l, (forall x, In x l -> f x = true) -> filter f l = l.
+Proof.
+  intros A f l H. induction l as [|x l IH]; simpl; [reflexivity|].
+  rewrite H by (left; reflexivity). rewrite IH; [reflexivity|]. intros y I. apply H. right. exact I.
+Qed.
+
+Lemma existsb_none : forall {A} (l : list A), existsb (fun _ => 0 =? 2) l = false.
+Proof. induction l; simpl; auto. Qed.
+
+Lemma fold_names_update : forall L E acc,
+  (forall kv, In kv E -> od_get L (fst kv) = Some (snd kv)) ->
+  fold_left (fun a n => match od_get L n with Some v => od_set a n v | None => a end) (map fst E) acc =
+  od_update acc E.
+Proof.
+  unfold od_update. induction E as [|kv E IH]; intros acc H; simpl; [reflexivity|].
+  rewrite (H kv) by (left; reflexivity). apply IH. intros x I. apply H. right. exact I.
+Qed.
+
+(* without an authorize callback the two-pass selection of the repaired WMSServer.map selects exactly what the
+   one-pass loop selected (distinct layer names) *)
+Lemma prune_pass_no_auth : forall prune L req acc,
+  NoDup (map fst L) -> (forall kv, In kv (w_layers_of req) -> In kv L) ->
+  prune_pass prune (fun _ => 0) L req acc = select_layers prune req acc.
+Proof.
+  intros prune L. induction req as [|w req IH]; intros acc ND SUB; simpl; [reflexivity|].
+  rewrite w_layers_of_cons in SUB. destruct (w_renders w) eqn:R.
+  - assert (HE : forall kv, In kv (w_map_layers w) -> od_get L (fst kv) = Some (snd kv)).
+    { intros [k v] I. apply od_get_in; [exact ND|]. apply SUB. apply in_or_app. left. exact I. }
+    rewrite (filter_all_true _ (map fst (w_map_layers w))).
+    + rewrite Nat.eqb_refl, existsb_none. cbn [negb orb andb]. rewrite andb_true_r.
+      rewrite fold_names_update by exact HE.
+      apply IH; [exact ND|]. intros kv I. apply SUB. apply in_or_app. right. exact I.
+    + intros n I. apply in_map_iff in I. destruct I as ([k v] & E & I). simpl in E. subst n.
+      pose proof (HE (k, v) I) as G. cbn [fst snd] in G. rewrite G. reflexivity.
+  - apply IH; [exact ND|]. intros kv I. apply SUB. exact I.
+Qed.
+
+Lemma select_auth_no_auth : forall prune req,
+  NoDup (req_keys req) -> select_layers_auth prune (fun _ => 0) req = select_layers prune req [].
+Proof.
+  intros prune req ND. unfold select_layers_auth. rewrite filter_auth_none.
+  rewrite (select_false_spec req []) by exact ND. cbn [app].
+  apply prune_pass_no_auth; [exact ND | auto].
+Qed.
+
+Lemma wms_map_auth_no_auth : forall prune combine fetch n o req,
+  NoDup (req_keys req) ->
+  wms_map_auth prune combine (fun _ => 0) fetch n o req = wms_map prune combine fetch n o req.
+Proof.
+  intros. unfold wms_map_auth, wms_map, render_layers. rewrite select_auth_no_auth by assumption. reflexivity.
+Qed.
+
+(* an opaque layer of which something was removed or limited by the authorisation hides nothing *)
+Example ex_auth_limited_top_keeps_base :
+  flat_map s_ids (flat_map snd (select_layers_auth true (fun k => if k =? 3 then 2 else 0) [ex_w_base; ex_w_top])) = [1; 2; 3]
+  /\ flat_map s_ids (flat_map snd (select_layers_auth true (fun k => if k =? 3 then 1 else 0) [ex_w_base; ex_w_top])) = [1; 3]
+  /\ flat_map s_ids (flat_map snd (select_layers_auth true (fun _ => 0) [ex_w_base; ex_w_top])) = [2; 3].
+Proof. vm_compute. auto. Qed.
